@@ -5,5 +5,5 @@ CONSTANTS
   MaxDepth = 5
 INIT GenInit
 NEXT GenNext
-INVARIANT GenInv
+INVARIANTS PrefixRule GuardSound DeepInv
 CHECK_DEADLOCK FALSE
